@@ -16,7 +16,7 @@ Inductive ekind : Type :=
 | KEst (ob : cobs).
 
 Record c03case : Type := mkcase {
-  c_kind : ekind; c_np : nat (* parameters per circuit *); c_init : option ccirc; c_circuits : list ccirc; c_pvals : list cparams;
+  c_kind : ekind; c_init : option ccirc; c_circuits : list ccirc; c_pvals : list cparams;
   c_layers : list layer;        (* outermost first *)
   c_legacy : bool;              (* which transpiling-estimator variant to run *)
   c_expected : result (list Q)  (* what the implementation returned *)
@@ -66,7 +66,7 @@ Definition model_objective (c : c03case) : list Q :=
 
 (* the case lies in the domain on which the instance describes Qiskit: no default of ClassicalInst.v is used *)
 Definition wf_case (c : c03case) : bool :=
-  wf_call (c_np c) (c_init c) (c_circuits c) (c_pvals c)
+  wf_call (c_init c) (c_circuits c) (c_pvals c)
   && match c_kind c with
      | KOpSampler _ alpha shots => alpha_ok alpha && wf_sampler_call shots (c_init c) (c_circuits c) (c_pvals c)
      | KBits f alpha shots =>
